@@ -347,6 +347,27 @@ func runCheck(repo, prop, tier string, keep bool, only string, noEvidence bool) 
 		}
 		rwg.Wait()
 	}
+	// last resort for obligations that timed out twice (a machine shared with other checks): one at a
+	// time, six times the budget, at most five minutes in all
+	{
+		lcfg := cfg
+		lcfg.Timeout = 6 * cfg.Timeout
+		start := time.Now()
+		for _, fr := range results {
+			if fr.Enc == nil {
+				continue
+			}
+			for _, o := range fr.Obls {
+				if o.Cover || o.Status != "timeout" || time.Since(start) > 5*time.Minute {
+					continue
+				}
+				raceStandalone(fr.Enc, o, lcfg, "")
+				if o.Status == "unsat" {
+					o.Solver += "+retry2"
+				}
+			}
+		}
+	}
 
 	known := loadKnown()
 	isKnown := func(name string) *KnownFinding {
